@@ -530,6 +530,10 @@ func (w *Worker) callBuiltin(caller *frame, pos token.Pos, fn *ssa.Builtin, args
 		n := len(dst)
 		dst = dst[:need]
 		for i, e := range src {
+			if w.gor != nil {
+				w.noteRead(&src[i])
+				w.noteWrite(&dst[n+i])
+			}
 			dst[n+i] = copyVal(e)
 		}
 		return dst
@@ -554,6 +558,10 @@ func (w *Worker) callBuiltin(caller *frame, pos token.Pos, fn *ssa.Builtin, args
 		// overlapping-safe, deep copy of aggregates
 		tmp := make([]value, n)
 		for i := 0; i < n; i++ {
+			if w.gor != nil {
+				w.noteRead(&src[i])
+				w.noteWrite(&dst[i])
+			}
 			tmp[i] = copyVal(src[i])
 		}
 		copy(dst, tmp)
